@@ -288,6 +288,15 @@ func c15BuildOps(cfg c15Cfg) []c15Op {
 		for _, ns := range c15NSVals {
 			ops = append(ops, c15Op{Kind: "update", Name: n, Field: "ns", C: c15Content{NS: ns}, label: fmt.Sprintf("update %s ns=%v", n, ns)})
 		}
+		// two field groups at once: the namespaces together with a field that a LATER check may refuse (a request that
+		// is rejected must not have moved the namespace bindings)
+		for _, ns := range c15NSVals {
+			ops = append(ops, c15Op{Kind: "update", Name: n, Field: "ns+min", C: c15Content{NS: ns, Min: c15MinVals[3]}, label: fmt.Sprintf("update %s ns=%v min{%s}", n, ns, c15Ints(c15MinVals[3]))})
+			if len(cfg.parents) > 0 {
+				pm := cfg.parents[len(cfg.parents)-1]
+				ops = append(ops, c15Op{Kind: "update", Name: n, Field: "ns+parent", Parent: pm, C: c15Content{NS: ns}, label: fmt.Sprintf("update %s ns=%v parent=%s", n, ns, c15Short(pm))})
+			}
+		}
 		for _, m := range c15MaxVals {
 			ops = append(ops, c15Op{Kind: "update", Name: n, Field: "max", C: c15Content{Max: m}, label: fmt.Sprintf("update %s max{%s}", n, c15Ints(m))})
 		}
@@ -372,6 +381,12 @@ func c15Modify(o *v1alpha1.ElasticQuota, op c15Op) {
 		}
 	case "ns":
 		c15SetNS(o, op.C.NS)
+	case "ns+min":
+		c15SetNS(o, op.C.NS)
+		o.Spec.Min = c15RL(op.C.Min)
+	case "ns+parent":
+		c15SetNS(o, op.C.NS)
+		o.Labels[extension.LabelQuotaParent] = op.Parent
 	case "max":
 		o.Spec.Max = c15RL(op.C.Max)
 	case "min":
@@ -929,7 +944,7 @@ func TestVerifC15Hist(t *testing.T) {
 			"every request the webhook accepts is persisted by the API server and every rejected one is not; update/delete of a non-existent quota never reach admission (404), create of an existing name does and is never persisted",
 			"one webhook replica; the informer echo (OnQuotaAdd/Update/Delete) of an admitted write arrives later than the next request and is not modelled",
 			"escape hatches that waive clauses by design are outside the alphabet: allow-force-update and is-root (tree root) labels; ElasticQuotaGuaranteeUsage gate off (default)",
-			"an update request changes one field group (parent | is-parent | tree id | namespaces | max | min) of the stored object",
+			"an update request changes one field group (parent | is-parent | tree id | namespaces | max | min) of the stored object, or the namespaces together with min / with the parent",
 			"the pod set is fixed per part; the pod is labelled with the quota name and lives in a namespace no quota binds ('quota with pods' = pods carrying the quota's name label, which is what a pod of a leaf quota looks like)",
 		}
 		res.Bounds = map[string]any{"names": cfg.names, "max_depth": cfg.depth, "symmetry": fmt.Sprintf("states are orbits under the %d permutations of the quota names that fix the pod's quota", len(cfg.perms))}
